@@ -12,7 +12,8 @@ A case is one of
 Body  = {"l": label, "ops": [op...], "out": ["none"] | ["val"] | ["raise", e] | ["fut", f]}
 op    = ["cb", body]             io_loop.add_callback(body)
         ["to", form, t, body]    form 0: add_timeout(T0+t)   1: call_later(t)
-                                 form 2: add_timeout(timedelta(t))   3: call_at(T0+t)      (t in ticks)
+                                 form 2: add_timeout(timedelta(seconds=t))   3: call_at(T0+t)      (t in ticks)
+                                 form [2, days]: add_timeout(timedelta(days=days, seconds=t))
         ["rm", k]                remove_timeout(k-th handle created so far); no-op when there is none
         ["af", f, body]          add_future(future f, body)
         ["sr", f, v] ["se", f, e] ["cf", f]    set_result / set_exception / cancel on future f
@@ -37,6 +38,7 @@ INPUT_TYPE = "c38_input"
 
 T0 = 4096.0          # virtual start (exactly representable; all times are T0 + k*TICK, exact in binary64)
 TICK = 0.25
+DAY_TICKS = 345600
 T = G.Tag
 # event codes (first element of every trace event)
 SC, ST, RM, AF, RS, OR, RUN, END, LOG, LOGD, BAD, IT, ADV, AERR = range(1, 15)
@@ -162,14 +164,17 @@ class _Run:
             i = self.new_inst()
             fn = self.make_fn(i, body, 1)
             nowt = ticks(io.time())
-            d = t if form in (0, 3) else nowt + t
+            days = 0
+            if isinstance(form, list):
+                form, days = form
+            d = t if form in (0, 3) else nowt + t + days * DAY_TICKS
             self.emit([ST, i, d])
             if form == 0:
                 h = io.add_timeout(T0 + t * TICK, fn)
             elif form == 1:
                 h = io.call_later(t * TICK, fn)
             elif form == 2:
-                h = io.add_timeout(datetime.timedelta(seconds=t * TICK), fn)
+                h = io.add_timeout(datetime.timedelta(days=days, seconds=t * TICK), fn)
             else:
                 h = io.call_at(T0 + t * TICK, fn)
             self.handles.append((i, h))
@@ -367,7 +372,9 @@ def g_op(op):
     if k == "cb":
         return "OCb %s" % g_body(op[1])
     if k == "to":
-        return "OTo %s %s %s" % (FORMS[op[1]], G.gz(op[2]), g_body(op[3]))
+        fm = op[1]
+        gfm = "(FDelta %s)" % G.gz(fm[1]) if isinstance(fm, list) else ("(FDelta 0)" if fm == 2 else FORMS[fm])
+        return "OTo %s %s %s" % (gfm, G.gz(op[2]), g_body(op[3]))
     if k == "rm":
         return "ORm %s" % G.gnat(op[1])
     if k == "af":
@@ -458,6 +465,8 @@ def rand_body(rng, budget, depth, prof):
             ops.append(["cb", rand_body(rng, budget, depth - 1, prof)])
         elif r < prof["w_cb"] + prof["w_to"]:
             form = rng.randrange(4)
+            if form == 2 and rng.random() < prof.get("w_days", 0.25):
+                form = [2, rng.choice([-2, -1, -1, 1, 1, 2])]
             t = rng.choice(prof["times"])
             ops.append(["to", form, t, rand_body(rng, budget, depth - 1, prof)])
         elif r < prof["w_cb"] + prof["w_to"] + prof["w_rm"]:
@@ -479,6 +488,7 @@ PROFILES = [
     dict(name="futures", nf=3, maxops=5, w_cb=0.2, w_to=0.15, w_rm=0.03, w_af=0.3, maxrm=3, times=[0, 1, 2, 5]),
     dict(name="overdue", nf=1, maxops=5, w_cb=0.15, w_to=0.6, w_rm=0.1, w_af=0.05, maxrm=6, times=[-6, -3, -1, 0, 1, 2, 4, 6], w_adv=0.8),
     dict(name="slow", nf=1, maxops=6, w_cb=0.1, w_to=0.55, w_rm=0.1, w_af=0.0, maxrm=6, times=[1, 2, 3, 4, 5, 6, 7, 8], w_adv=1.0),
+    dict(name="timedeltas", nf=1, maxops=5, w_cb=0.1, w_to=0.7, w_rm=0.08, w_af=0.0, maxrm=6, times=[-345601, -3, -1, 0, 1, 2, 5, 345599, 345600], w_days=0.8, w_adv=0.3),
     dict(name="callbacks", nf=1, maxops=5, w_cb=0.7, w_to=0.1, w_rm=0.05, w_af=0.05, maxrm=3, times=[0, 1]),
 ]
 
@@ -498,6 +508,9 @@ def corpus_cases():
     cs.append(prog(B([to(0, 10, B([to(0, 5)])), to(0, 10)])))
     # a slow callback makes several different deadlines overdue at once: they run in deadline order
     cs.append(prog(B([to(0, 7), to(0, 3), to(0, 5), to(0, 1), to(0, 9), to(1, 1, B([["adv", 7], to(0, 2), to(0, 12)]))])))
+    # deadline forms: timedelta with days and negative deltas (seeded change C38_2: `days` dropped), all forms mixed
+    cs.append(prog(B([to([2, -1], 345599), to(1, 1), to([2, 1], 2), to([2, 0], -4), to(2, 3), to([2, 1], -345600), to([2, -2], 3), to(3, 2), to(0, 2)])))
+    cs.append(prog(B([to(1, 3, B([to([2, -1], 0), to([2, 0], -1), to(1, -2), to([2, 1], -345601), to(0, 1), to(3, -5)]))])))
     # remove a timeout that is already in the ready queue of this iteration
     cs.append(prog(B([to(0, 2, B([["rm", 1]])), to(0, 2), to(0, 2, B([["rm", 0], ["rm", 1]]))])))
     # raising callbacks among others; value-returning callback; future-returning callback whose future fails
@@ -527,7 +540,7 @@ def alphabet():
     for lf in ALPHABET_LEAVES:
         ops.append(["cb", lf])
     for lf in ALPHABET_LEAVES[:3]:
-        for form, t in ((0, 0), (1, 2), (2, 2), (3, 3), (0, -1)):
+        for form, t in ((0, 0), (1, 2), (2, 2), (3, 3), (0, -1), ([2, -1], 2), ([2, 1], -345599)):
             ops.append(["to", form, t, lf])
     ops += [["adv", 2], ["rm", 0], ["rm", 1], ["af", 0, B()], ["af", 0, B([], ("raise", 2))], ["sr", 0, 4], ["se", 0, 5], ["cf", 0]]
     return ops
@@ -662,7 +675,9 @@ def shrink(case):
                         yield dict(b, ops=b["ops"][:i] + [op[:j] + [v] + op[j + 1:]] + b["ops"][i + 1:])
             if op[0] == "to" and op[2] not in (0, 1):
                 yield dict(b, ops=b["ops"][:i] + [[op[0], op[1], op[2] // 2, op[3]]] + b["ops"][i + 1:])
-            if op[0] == "to" and op[1] != 0:
+            if op[0] == "to" and isinstance(op[1], list):
+                yield dict(b, ops=b["ops"][:i] + [[op[0], 2, op[2], op[3]]] + b["ops"][i + 1:])
+            elif op[0] == "to" and op[1] != 0:
                 yield dict(b, ops=b["ops"][:i] + [[op[0], 0, op[2], op[3]]] + b["ops"][i + 1:])
         if b["out"] != ["none"]:
             yield dict(b, out=["none"])
